@@ -30,6 +30,8 @@ CHECKS = {
          "roster: all add/commit sequences up to depth 4 / 6 with batches of 1, 2, 127, 128, 129 keys over three vectors, strangers, malformed keys and ids; nodes(), replicasNumbers() and the raw pending roster compared in order after every step. signatures: every matrix with <= REP+1 slots per vector over {distinct members, byte-identical repeat, malleated twin of the same member, non-member, other message, junk}, REP 1..4 x 1..2, missing vectors; accepted => REP distinct members verified (Go crypto), submitObjectPut halts iff verification accepts, honest matrix accepted", "4.14"),
  "C18": ("chainmc", "exhaustive enumeration of candidate strings (all strings up to length 5/6 over a 10-symbol alphabet, structured IPv4/IPv6/name/TXT grids) through every validating NNS entry point, against independent Go validators (regexp, netip)",
          "quick 2.5e5 / thorough 1.25e6 candidates, each through addRecord and setRecord (and isAvailable/register/registerTLD for names) on the real bytecode from one base state; accepted <=> the independent reference accepts; a rejection must leave an empty storage diff", "4.18"),
+ "C17": ("chainmc", "explicit-state BFS over vote/stranger/advance-blocks sequences on the NeoFS contract deployed without Notary, one exploration per Alphabet size, against a ballot model (voter set + height of the last counted vote)",
+         "n=1..4 (quick) / 1..7 (thorough): all sequences up to threshold+2 / threshold+3 invocations of setConfig (two competing ids), cheque, alphabetUpdate and innerRingCandidateRemove by every member, a stranger and the candidate, with block gaps 1/19/20/21 and several votes per block; for n>=3 new voters are introduced in index order (the contract only compares keys for equality), n=3 additionally in every order in the thorough tier; the effect (config value, GAS at payee and contract, Alphabet list, candidate list, exactly one notification) must happen in exactly the invocation that completes floor(2n/3)+1 distinct votes", "4.17"),
 }
 
 NOT_YET = "check not built yet in this revision (work in progress; see DESIGN.md section 10)"
